@@ -34,7 +34,7 @@ PROP = dict(
     ],
     jobs=dict(
         quick=[
-            job("chainntnfs", "^TestVerifC14Machine$", ["TestVerifC14Machine"], 6000, shards=6),
+            job("chainntnfs", "^TestVerifC14Machine$", ["TestVerifC14Machine"], 12000, shards=6),
             job("chainntnfs", "^TestVerifC14MachineBolt$", ["TestVerifC14MachineBolt"], 30, shards=8),
         ],
         thorough=[
